@@ -209,6 +209,14 @@ def shard(P, ver, idx, nshards, n, seed):
         s = V.spell(p, m, "shuffle" if j % 2 else None, rng2)
         P.dist(s)
         check_vector(P, ver, s)
+        if j % 3 == 0:
+            # an EQUAL vector in another spelling serialised right afterwards in the same
+            # process must report ITS OWN string (caches keyed by the canonical form)
+            s2 = V.spell(p, V.nd_variants(ver, m, rng2, 1)[-1], "shuffle", rng2)
+            if s2 != s:
+                P.stratum("equal-vector-other-spelling-right-after")
+                check_vector(P, ver, s2)
+                check_vector(P, ver, s)
         if j % 499 == 0:
             P.sample({"ver": ver, "vector": s})
 
